@@ -157,6 +157,39 @@ def panic_capable_sites(root, strip_templates):
     return sites
 
 
+def span_sites(root):
+    """(file, function, what) for every place of the macro crate's expander that decides which source span GENERATED tokens carry:
+    each quote_spanned! with the span expression it is given, each bare Span::call_site() / mixed_site(), each format_ident! /
+    Ident::new / Index::from (identifiers and indices made at the call site unless given a span).  In source order.  A type error in
+    a generated token is reported where that token's span points (C20)."""
+    sites = []
+    for path in sorted(vlib.walk(root, (".rs",))):
+        rel = os.path.relpath(path, vlib.REPO)
+        if "/expand" not in rel:
+            continue
+        text = strip_hooks(open(path).read())
+        text = re.sub(r"//[^\n]*", "", text)
+        fn = "?"
+        pos = 0
+        rx = re.compile(r"\bfn\s+(\w+)|\bquote_spanned\s*!\s*[\{\(\[]\s*([^=]+?)\s*=>|\bSpan\s*::\s*(call_site|mixed_site)\s*\(\s*\)|\b(format_ident)\s*!\s*\(([^;]*?)\)\s*[;,\)]|"
+                        r"\b(Ident\s*::\s*new|Index\s*::\s*from)\s*\(|\blet\s+(\w*span\w*)\s*=\s*([^;]+);")
+        for m in rx.finditer(text):
+            if m.group(1):
+                fn = m.group(1)
+            elif m.group(2):
+                sites.append((rel, fn, "quote_spanned " + re.sub(r"\s+", " ", m.group(2))))
+            elif m.group(3):
+                sites.append((rel, fn, "Span::" + m.group(3)))
+            elif m.group(4):
+                args = re.sub(r"\s+", " ", m.group(5))
+                sites.append((rel, fn, "format_ident" + (" span=" + args.split("span")[1].strip(" =") if "span" in args else " (call site)")))
+            elif m.group(6):
+                sites.append((rel, fn, re.sub(r"\s+", "", m.group(6))))
+            elif m.group(7):
+                sites.append((rel, fn, "let %s = %s" % (m.group(7), re.sub(r"\s+", " ", m.group(8))[:80])))
+    return sites
+
+
 def features(manifest):
     t = manifest.get("features", {})
     return [(k, list(v)) for k, v in t.items()]
@@ -178,6 +211,7 @@ def facts():
         "runtime_state": runtime_observations(os.path.join(vlib.REPO, "assert-struct", "src"))[1],
         "macro_panic_sites": panic_capable_sites(os.path.join(vlib.REPO, "assert-struct-macros", "src"), True),
         "runtime_panic_sites": panic_capable_sites(os.path.join(vlib.REPO, "assert-struct", "src", "error.rs") if False else os.path.join(vlib.REPO, "assert-struct", "src"), False),
+        "macro_span_sites": span_sites(os.path.join(vlib.REPO, "assert-struct-macros", "src")),
         "runtime_regex_optional": bool(rt.get("dependencies", {}).get("regex", {}).get("optional", False))
         if isinstance(rt.get("dependencies", {}).get("regex"), dict) else False,
     }
@@ -222,9 +256,12 @@ Definition macro_panic_sites : list (string * string * string) := %s.
 
 (* the same for assert-struct/src (the run-time support: report formatting, source lookup, set matching, Like impls) *)
 Definition runtime_panic_sites : list (string * string * string) := %s.
+
+(* every place of the expander that decides which source span generated tokens carry: (file, function, what) *)
+Definition macro_span_sites : list (string * string * string) := %s.
 """ % (table(f["runtime_features"]), table(f["macro_features"]), "true" if f["edge_default"] else "false",
        coq_list([coq_str(x) for x in f["edge_features"]]), glist(f["runtime_gates"]), glist(f["macro_gates"]),
-       glist(f["runtime_env"]), glist(f["runtime_state"]), tlist(f["macro_panic_sites"]), tlist(f["runtime_panic_sites"]))
+       glist(f["runtime_env"]), glist(f["runtime_state"]), tlist(f["macro_panic_sites"]), tlist(f["runtime_panic_sites"]), tlist(f["macro_span_sites"]))
     path = os.path.join(vlib.COQ, "gen", "RepoFacts.v")
     os.makedirs(os.path.dirname(path), exist_ok=True)
     if not os.path.exists(path) or open(path).read() != text:
